@@ -90,6 +90,7 @@ func GenBufSizes(t *sim.Tape) (next func() int, desc string) {
 			}
 		}, "random-with-zero"
 	default:
-		return func() int { return 1 << 16 }, "huge"
+		k := []int{1 << 16, 1<<16 + 1, 1 << 17, 300_000, 1 << 20}[t.Choose(5)]
+		return func() int { return k }, "huge"
 	}
 }
